@@ -139,8 +139,8 @@ type c11Run struct {
 type c11Input struct {
 	Ctxs   map[string]json.RawMessage `json:"ctxs"`
 	Runs   []c11Run                   `json:"runs"`
-	Random int      `json:"random"`
-	Conc   int      `json:"conc"`
+	Random int                        `json:"random"`
+	Conc   int                        `json:"conc"`
 }
 
 // ---------------------------------------------------------------- block store stub
@@ -758,7 +758,7 @@ func (w *c11World) project() map[string]interface{} {
 	}
 	return map[string]interface{}{
 		"inflight": infl,
-		"pending": pend, "committed": comm, "list": list, "size": int64(p.Size()),
+		"pending":  pend, "committed": comm, "list": list, "size": int64(p.Size()),
 		"buffer": buf, "height": h, "ltime": int64(lt.Sub(c11Base) / time.Second),
 		"pruneH": p.pruningHeight, "pruneT": int64(p.pruningTime.Sub(c11Base) / time.Second),
 		"tip": w.bs.Height(), "saved": w.saved,
